@@ -145,6 +145,60 @@ func main() {
 		}
 		walkBlock(&fd.Body.List)
 	}
+	// second pass (ids after all first-pass mutations, so those stay stable): realistic slips —
+	// Len<->Cap, Length<->Capacity, len<->cap, swapped call arguments, src<->dst receivers,
+	// integer results replaced by 0
+	for _, d := range f.Decls {
+		fd, ok := d.(*ast.FuncDecl)
+		if !ok || fd.Body == nil {
+			continue
+		}
+		key := recvName(fd)
+		add := func(pos token.Pos, desc string, apply func()) {
+			muts = append(muts, mutation{fn: key, line: fset.Position(pos).Line, desc: desc, apply: apply})
+		}
+		nameSwap := map[string]string{"Len": "Cap", "Cap": "Len", "Length": "Capacity", "Capacity": "Length", "len": "cap", "cap": "len",
+			"MaxSignedValue": "MaxUnsignedValue", "src": "dst", "dst": "src"}
+		ast.Inspect(fd.Body, func(n ast.Node) bool {
+			switch x := n.(type) {
+			case *ast.CallExpr:
+				switch fn := x.Fun.(type) {
+				case *ast.SelectorExpr:
+					if to, ok := nameSwap[fn.Sel.Name]; ok {
+						id, from := fn.Sel, fn.Sel.Name
+						add(id.Pos(), fmt.Sprintf("method %s -> %s", from, to), func() { id.Name = to })
+					}
+					if r, ok := fn.X.(*ast.Ident); ok {
+						if to, ok := nameSwap[r.Name]; ok && (r.Name == "src" || r.Name == "dst") {
+							from := r.Name
+							add(r.Pos(), fmt.Sprintf("receiver %s -> %s in %s.%s()", from, to, from, fn.Sel.Name), func() { r.Name = to })
+						}
+					}
+				case *ast.Ident:
+					if to, ok := nameSwap[fn.Name]; ok && (fn.Name == "len" || fn.Name == "cap") {
+						from := fn.Name
+						add(fn.Pos(), fmt.Sprintf("builtin %s -> %s", from, to), func() { fn.Name = to })
+					}
+				}
+				if len(x.Args) == 2 {
+					if _, isLit := x.Args[1].(*ast.BasicLit); !isLit {
+						add(x.Lparen, "swap the two call arguments", func() { x.Args[0], x.Args[1] = x.Args[1], x.Args[0] })
+					}
+				}
+			case *ast.ReturnStmt:
+				if len(x.Results) == 1 {
+					if _, isLit := x.Results[0].(*ast.BasicLit); !isLit {
+						add(x.Pos(), "return 0 instead of the result", func() { x.Results[0] = &ast.BasicLit{Kind: token.INT, Value: "0"} })
+					}
+				}
+			case *ast.SliceExpr:
+				if x.High != nil && x.Low != nil {
+					add(x.Lbrack, "swap slice bounds", func() { x.Low, x.High = x.High, x.Low })
+				}
+			}
+			return true
+		})
+	}
 	if *list {
 		for i, m := range muts {
 			fmt.Printf("%d\t%s\t%d\t%s\n", i, m.fn, m.line, m.desc)
